@@ -1201,8 +1201,14 @@ func (s Subtitles) WriteToSSA(o io.Writer) (err error) {
 		var format = []string{ssaStyleFormatNameName}
 		var styles = make(map[string]*ssaStyle)
 		var styleNames []string
-		for _, s := range s.Styles {
-			var ss = newSSAStyleFromStyle(*s)
+		// Loop through styles in a deterministic order since the format depends on it
+		var styleIDs []string
+		for id := range s.Styles {
+			styleIDs = append(styleIDs, id)
+		}
+		sort.Strings(styleIDs)
+		for _, id := range styleIDs {
+			var ss = newSSAStyleFromStyle(*s.Styles[id])
 			format = ss.updateFormat(formatMap, format)
 			styles[ss.name] = ss
 			styleNames = append(styleNames, ss.name)
